@@ -339,7 +339,8 @@ def run_shard(ctx):
       ctx.note(f'time budget reached at case {i}')
       break
     rng = ctx.rng(i)
-    cls = CLASSES[i % len(CLASSES)]
+    # every shard cycles through all classes (a reused warper must see a mixed history)
+    cls = CLASSES[(i // ctx.nshards) % len(CLASSES)]
     y = gen_array(rng, cls)
     for name in names:
       check_one(ctx, name, S[name], cls, y.copy(), i)
